@@ -10,6 +10,7 @@ func runExtract(repo, outDir, factsFile string) {
 	facts := map[string]any{}
 	os.MkdirAll(outDir, 0755)
 	writePathGrammar(repo, outDir)
+	writePipeline(repo, outDir, facts)
 	b, _ := json.MarshalIndent(facts, "", " ")
 	os.WriteFile(factsFile, b, 0644)
 }
